@@ -174,7 +174,10 @@ type c18Workload struct {
 	Ops     []c18Op  `json:"ops"`
 	FwdMax  int      `json:"forward_delay_max_us"`
 	RPCMax  int      `json:"rpc_delay_max_us,omitempty"`
-	IDSeed  uint64   `json:"id_seed"`
+	// SubDelay: the broker takes this long before a SUBSCRIBE is in force and acknowledged; the harness then
+	// does not wait for the broker either: the operations start as soon as the last client reports SUBSCRIBED
+	SubDelay int    `json:"subscribe_delay_us,omitempty"`
+	IDSeed   uint64 `json:"id_seed"`
 }
 
 type rtClient struct {
@@ -271,6 +274,9 @@ func c18Run(wl c18Workload) (quiescent bool, calls map[string]int, err error) {
 		}
 		return false
 	})
+	if wl.SubDelay > 0 {
+		w.env.MQTT.SetSubscribeDelay(time.Duration(wl.SubDelay) * time.Microsecond)
+	}
 	if wl.FwdMax > 0 {
 		n := 0
 		w.env.MQTT.SetForwardDelay(func(p fakemqtt.Publish) time.Duration {
@@ -281,7 +287,9 @@ func c18Run(wl c18Workload) (quiescent bool, calls map[string]int, err error) {
 	var cls []*rtClient
 	defer func() {
 		for _, r := range cls {
-			_ = r.cl.Close()
+			r := r
+			// Close() waits for the notification loop: it never returns when that loop is blocked
+			watchdog(3*time.Second, func() { _ = r.cl.Close() })
 		}
 	}()
 	for i := 0; i < wl.Clients; i++ {
@@ -298,23 +306,35 @@ func c18Run(wl c18Workload) (quiescent bool, calls map[string]int, err error) {
 		if !waitUntil(5*time.Second, r.subscribed) {
 			return false, calls, fmt.Errorf("realtime client %d never became subscribed by itself (errors: %v)", i, r.errs)
 		}
-		waitUntil(2*time.Second, func() bool { return w.env.MQTT.Subscribers(w.col+"/"+k.Name) >= i+1 })
+		if wl.SubDelay == 0 {
+			waitUntil(2*time.Second, func() bool { return w.env.MQTT.Subscribers(w.col+"/"+k.Name) >= i+1 })
+		}
 	}
 	// stuck: nothing is active any more (no call in flight, no notification queued, no background work, no
 	// goroutine of the client inside or about to enter a sync) for 3 s, but a client still holds an
 	// operation it has not pushed. The client library has no timers: nobody is ever going to push it.
 	stuck := -1
+	blockedNotify := false
 	quiesce := func() bool {
 		stable := 0
 		var idleSince time.Time
 		return waitUntil(12*time.Second, func() bool {
+			// (a goroutine that sits in ReceiveNotification without being inside a sync is waiting for the sync
+			// semaphore; its holder is inside syncPushPullPacks - or nobody is, and then it waits for ever)
 			active := w.env.InFlight() > 0 || w.env.MQTT.QueuedForwards() > 0 || cluster.BackgroundBusy() ||
-				stackContains("syncPushPullPacks") || stackContains("ReceiveNotification") || stackContains("DeliverTransaction")
+				stackContains("syncPushPullPacks") || stackContains("DeliverTransaction.func")
 			unpushed := -1
 			for i, r := range cls {
 				if r.dt.NeedPush() {
 					unpushed = i
 				}
+			}
+			if unpushed < 0 && stackContains("ReceiveNotification") {
+				// a notification is being handled but no sync is running: the handler is blocked
+				blockedNotify = true
+				unpushed = 0
+			} else {
+				blockedNotify = false
 			}
 			if active {
 				stable, idleSince = 0, time.Time{}
@@ -341,14 +361,19 @@ func c18Run(wl c18Workload) (quiescent bool, calls map[string]int, err error) {
 		r.mu.Lock()
 		errs := append([]string{}, r.errs...)
 		r.mu.Unlock()
+		if blockedNotify {
+			return fmt.Errorf("a realtime client has been handling a notification for 3 s without any sync running (no call in flight, nothing queued): its notification handler is blocked for ever, later pushes of other clients will never be pulled (client errors: %v)", errs)
+		}
 		pack := r.dt.CreatePushPullPack()
 		return fmt.Errorf("realtime client %d holds %d operation(s) that it never pushes: for 3 s no call was in flight, no notification queued and no sync pending, and the client library has no timer that would push later (client errors: %v)", stuck, len(pack.Operations), errs)
 	}
-	if !quiesce() {
-		return false, calls, nil
-	}
-	if stuck >= 0 {
-		return true, calls, stuckErr()
+	if wl.SubDelay == 0 {
+		if !quiesce() {
+			return false, calls, nil
+		}
+		if stuck >= 0 {
+			return true, calls, stuckErr()
+		}
 	}
 	for _, op := range wl.Ops {
 		r := cls[op.C%len(cls)]
@@ -467,5 +492,42 @@ func TestC18OwnNotifications(t *testing.T) {
 			c.failf("a lone realtime client sent %d push-pull requests for its entry and %d operations: %d of them were caused by its own notifications", total, n, total-n-1)
 		}
 		col.Case(n >= 2, fmt.Sprint(n, wl.FwdMax, wl.IDSeed), nil, func() interface{} { return map[string]interface{}{"ops": n, "requests": total} })
+	})
+}
+
+// TestC18LateJoiner: a push that is announced right after another realtime client completed its
+// first sync must reach that client, however slow the broker is in acknowledging subscriptions.
+func TestC18LateJoiner(t *testing.T) {
+	col := stats.New("C18", t.Name(),
+		"2-4 REAL realtime clients subscribe one after the other to a Counter / List while the broker takes 0.5-50 ms (drawn) to put a SUBSCRIBE into force and acknowledge it; as soon as the LAST client reports SUBSCRIBED (its first sync is complete) 1-3 operations are issued by the first client without any pause and nothing else happens afterwards; "+
+			"oracle: at quiescence every client = refmodel(stored log) - an announcement published while a subscription was not yet in force would be lost for good; "+
+			"non-trivial = the broker delay is >= 5 ms (longer than a push takes); distinct = the workload")
+	checkProp(t, "C18", col, func(c *caseCtx) {
+		rt := c.rt
+		kind := []sim.Kind{sim.Counter, sim.List}[rapid.IntRange(0, 1).Draw(rt, "kind")]
+		wl := c18Workload{Kind: kind, Clients: rapid.IntRange(2, 4).Draw(rt, "clients"), IDSeed: rapid.Uint64Range(1, 1<<30).Draw(rt, "idseed"),
+			SubDelay: rapid.SampledFrom([]int{500, 5000, 20000, 50000}).Draw(rt, "subdelay")}
+		n := rapid.IntRange(1, 3).Draw(rt, "ops")
+		for i := 0; i < n; i++ {
+			call := c06CheapCall(kind, i)
+			if kind == sim.Counter {
+				call = c07Op(kind, i)
+			}
+			wl.Ops = append(wl.Ops, c18Op{C: 0, Call: call})
+		}
+		c.j.Header = wl
+		q, _, err := c18Run(wl)
+		if err != nil {
+			if strings.Contains(err.Error(), "HARNESS-ERROR") {
+				rt.Skip(err.Error())
+			}
+			c.failf("%v", err)
+		}
+		if !q {
+			col.Label("no-quiescence-within-budget")
+			rt.Skip("no quiescence")
+		}
+		b, _ := json.Marshal(wl)
+		col.Case(wl.SubDelay >= 5000, string(b), []string{"kind=" + string(kind), fmt.Sprintf("subscribe-delay-us=%d", wl.SubDelay)}, func() interface{} { return wl })
 	})
 }
